@@ -16,7 +16,7 @@ try:
     r = sh("VERIF_NO_EVIDENCE=1 ./check %s %s" % (pid, tier), cwd=ROOT)
 finally:
     sh("git -C /repo checkout -- .")
-    sh("git -C /repo clean -fdq -- crates")      # files ADDED by the patch are untracked: checkout alone leaves them behind
+    sh("git -C /repo clean -fdq")      # files ADDED by the patch are untracked: checkout alone leaves them behind
 out = r.stdout
 viol = [l for l in out.split("\n") if l.startswith("VIOLATION")]
 print(out[-2500:])
